@@ -536,6 +536,8 @@ type c20Tier struct {
 	orderAlphabet, samePeerAlphabet          []string
 	wideAlphabet                             []string // optional second fresh-peers space: more letters, one level shallower
 	wideDepth                                int
+	flagsDepth                               int
+	flagsSQL                                 bool
 	byteBases                                []string // messages whose every byte is corrupted
 	byteStride                               int      // 1 = every offset
 	semSQL, bytesSQL                         bool
@@ -559,13 +561,15 @@ func c20Tiers(thorough bool) c20Tier {
 				"NA1b", "CU1b", "CU3", "xCA.node1:=evil,resigned", "xCA.scid=tiny-amount", "xCU.tiny-channel,max>capacity",
 				"xCA.sigB2=evil&CA", "CU1a&xCU1.sig=other-node&CA"),
 			wideDepth:        5,
+			flagsDepth:       6,
+			flagsSQL:         true,
 			samePeerAlphabet: append(append([]string{}, c20AlphabetCore...), "xCA.btc2:=evil,resigned"),
 			byteBases:        []string{"CA", "CU0b", "CU1b", "NA1b", "NA2"},
 			byteStride:       1, semSQL: true, bytesSQL: true, deadline: 26 * time.Minute,
 		}
 	} else {
 		tr = c20Tier{
-			orderDepth: 5, orderDepthSQL: 4, samePeerDepth: 3,
+			orderDepth: 5, orderDepthSQL: 4, samePeerDepth: 3, flagsDepth: 5,
 			orderAlphabet: append(append([]string{}, c20AlphabetCore...), "xCA.btc2:=evil,resigned", "CA3", "blk",
 				"CA&CU0a&NA1", "CU0b&CA", "CU0a&CU0b"),
 			samePeerAlphabet: c20AlphabetCore,
@@ -581,6 +585,7 @@ func c20Tiers(thorough bool) c20Tier {
 	geti("VERIF_C20_DEPTH", &tr.orderDepth)
 	geti("VERIF_C20_DEPTH_SQL", &tr.orderDepthSQL)
 	geti("VERIF_C20_DEPTH_SAMEPEER", &tr.samePeerDepth)
+	geti("VERIF_C20_DEPTH_FLAGS", &tr.flagsDepth)
 	return tr
 }
 
@@ -863,6 +868,18 @@ func c20Worker(t *testing.T) {
 	spaces := []spaceDef{
 		{"order/same-peer/kv", c20Cfg{Backend: "kv", SamePeer: true}, tier.samePeerAlphabet, tier.samePeerDepth, false},
 		{"order/fresh-peers/sql", c20Cfg{Backend: "sql"}, tier.orderAlphabet, tier.orderDepthSQL, true},
+	}
+	// the flag / content lattice as an ordering alphabet: updates of both directions
+	// with and without the disable bit (and a reserved bit) at t and t+1, node
+	// announcements with different content at t and t+1
+	flagsAlphabet := []string{"CA",
+		"lCU0.cf=00.mf=01.ts=equal", "lCU0.cf=00.mf=01.ts=newer", "lCU0.cf=02.mf=01.ts=equal", "lCU0.cf=02.mf=01.ts=newer",
+		"lCU1.cf=00.mf=01.ts=equal", "lCU1.cf=00.mf=01.ts=newer", "lCU1.cf=02.mf=01.ts=equal", "lCU1.cf=02.mf=01.ts=newer",
+		"lCU0.cf=80.mf=03.ts=older", "lCU1.cf=42.mf=03.ts=older",
+		"NA1", "lNA1.alias.ts=equal", "lNA1.alias.ts=newer", "lNA1.addr.ts=older"}
+	spaces = append(spaces, spaceDef{"order/flags/kv", c20Cfg{Backend: "kv"}, flagsAlphabet, tier.flagsDepth, true})
+	if tier.flagsSQL {
+		spaces = append(spaces, spaceDef{"order/flags/sql", c20Cfg{Backend: "sql"}, flagsAlphabet, tier.flagsDepth - 1, true})
 	}
 	if len(tier.wideAlphabet) > 0 {
 		spaces = append(spaces, spaceDef{"order/fresh-peers-wide/kv", c20Cfg{Backend: "kv"}, tier.wideAlphabet, tier.wideDepth, true})
